@@ -48,15 +48,15 @@ Theorem gen_binop_passthrough :
   forall (arr nformat:Type)
          (np_bin : npop -> arr -> arr -> res arr) (np_divmod : arr -> arr -> res (arr * arr))
          (np_un : npop -> arr -> res arr) (np_item : arr -> arr)
-         (dtype_to_str : arr -> res nformat) (np_cast : nformat -> arr -> res arr),
+         (dtype_to_str : arr -> res nformat) (np_cast : nformat -> arr -> res arr) (np_empty : nformat -> arr),
     (forall o a b, is_cmp o = true -> np_bin (npop_of (mirror o)) b a = np_bin (npop_of o) a b) ->
     (forall r nf, dtype_to_str r = Ok nf -> np_cast nf r = Ok r) ->
     forall (h:heap arr nformat) lhs rhs o store kl kr,
       kind_of arr nformat h lhs = Ok kl -> kind_of arr nformat h rhs = Ok kr -> in_scope kl o kr = true ->
-      run_binop arr nformat np_bin np_divmod np_un np_item dtype_to_str np_cast gen_tables h lhs o rhs store
-      = spec_binop arr nformat np_bin np_divmod dtype_to_str h lhs o rhs store.
+      run_binop arr nformat np_bin np_divmod np_un np_item dtype_to_str np_cast np_empty gen_tables h lhs o rhs store
+      = spec_binop arr nformat np_bin np_divmod dtype_to_str np_empty h lhs o rhs store.
 Proof.
-  intros arr nformat np_bin np_divmod np_un np_item d2s np_cast H1 H2.
-  exact (binop_passthrough arr nformat np_bin np_divmod np_un np_item d2s np_cast H1 H2 gen_tables gen_dispatch_table_correct).
+  intros arr nformat np_bin np_divmod np_un np_item d2s np_cast np_empty H1 H2.
+  exact (binop_passthrough arr nformat np_bin np_divmod np_un np_item d2s np_cast np_empty H1 H2 gen_tables gen_dispatch_table_correct).
 Qed.
 Print Assumptions gen_binop_passthrough.
